@@ -226,21 +226,23 @@ func C16Cases(p *spec.Program, seed uint64, tier string, nSplits int) ([]*Case, 
 	garbage := "\x00\x01\x02types:\xff\xfe[\x80"
 	tabbed := "types:\n\t- Sink\n\t- Leaf\nsort:\ttrue\n"
 	unterminated := full + "validators: [\"a\", \n"
-	for name, content := range map[string]string{"torn-flow-map": torn, "binary-garbage": garbage, "tab-indent": tabbed, "unterminated-seq": unterminated} {
+	for _, sc := range [][2]string{{"binary-garbage", garbage}, {"tab-indent", tabbed}, {"torn-flow-map", torn}, {"unterminated-seq", unterminated}} {
+		name, content := sc[0], sc[1]
 		if yamlParses(content) {
 			continue // still valid YAML: a readable, parsable configuration; nothing is asserted
 		}
 		add("unparsable-config/syntax:"+name, nil, RunSpec{Config: &ConfigFile{Mode: "file", Content: content}, Params: cli.Params}, Expect{Kind: "fails"})
 	}
-	for name, line := range map[string]string{
-		"types-is-map":          "types: {\"a\": 1}\n",
-		"types-is-scalar-map":   "types:\n  Sink:\n    nested: true\n",
-		"sort-is-list":          "sort: [true]\n",
-		"name-overrides-is-seq": "name_overrides: [\"a\", \"b\"]\n",
-		"time-type-is-seq":      "time_type: [\"x\"]\n",
-		"injected-is-scalar":    "injected_fields: 5\n",
-		"validators-is-scalar":  "validators:\n  \"Some.Field\": {\"a\": \"b\"}\n",
+	for _, tc := range [][2]string{
+		{"injected-is-scalar", "injected_fields: 5\n"},
+		{"name-overrides-is-seq", "name_overrides: [\"a\", \"b\"]\n"},
+		{"sort-is-list", "sort: [true]\n"},
+		{"time-type-is-seq", "time_type: [\"x\"]\n"},
+		{"types-is-map", "types: {\"a\": 1}\n"},
+		{"types-is-scalar-map", "types:\n  Sink:\n    nested: true\n"},
+		{"validators-is-scalar", "validators:\n  \"Some.Field\": {\"a\": \"b\"}\n"},
 	} {
+		name, line := tc[0], tc[1]
 		// documented option types violated: the file is YAML but cannot be parsed as a configuration
 		content := "---\n" + line
 		add("unparsable-config/type:"+name, nil, RunSpec{Config: &ConfigFile{Mode: "file", Content: content}, Params: cli.Params}, Expect{Kind: "fails"})
